@@ -128,8 +128,17 @@ class DBSpace(data_algebra.data_space.DataSpace):
         assert isinstance(allow_overwrite, bool)
         if key in self.description_map.keys():
             assert allow_overwrite
+            # ops may read the table being replaced: materialize the result before dropping it
+            scratch = self._new_key()
+            self.db_handle.create_table(table_name=scratch, q=ops)
             self.remove(key)
-        descr = self.db_handle.create_table(table_name=key, q=ops)
+            q_scratch = self.db_handle.db_model.quote_table_name(scratch)
+            descr = self.db_handle.create_table(
+                table_name=key, q=f"SELECT * FROM {q_scratch}"
+            )
+            self.db_handle.drop_table(scratch)
+        else:
+            descr = self.db_handle.create_table(table_name=key, q=ops)
         self.description_map[key] = descr
         self.eligable_for_auto_drop_list.add(key)
         return descr
